@@ -250,6 +250,23 @@ func VerifC04ProcessMultiple(v *VerifC04Server, h *VerifC04Host, n *com.Packet, 
 	return uint32(c.next.Flags.Len()), err
 }
 
+// VerifC04Process runs the real conn.process (the reply assembly after a packet was dispatched) for a
+// connection whose host is h, with `add` batches already resolved by tags; returns what the reply looks
+// like ("nil" if none).
+func VerifC04Process(v *VerifC04Server, h *VerifC04Host, n *com.Packet, o bool, add int) (string, error) {
+	c := &conn{host: h}
+	for i := 0; i < add; i++ {
+		var d device.ID
+		d[0], d[1] = 6, byte(i+1)
+		c.add = append(c.add, &com.Packet{ID: 0x20, Job: uint16(10 + i), Device: d})
+	}
+	err := c.process(cout.Log{}, v, "a", n, o)
+	if c.next == nil {
+		return "nil", err
+	}
+	return fmt.Sprintf("id=%d,flags=%d,len=%d", c.next.ID, uint64(uint16(c.next.Flags)), c.next.Flags.Len()), err
+}
+
 // VerifC04Handle runs the real connection handler on c with the fake server.
 func VerifC04Handle(c net.Conn, v *VerifC04Server) { handle(cout.Log{}, c, v, "a") }
 
